@@ -22,6 +22,8 @@ pub(crate) struct Assignment {
     idents: Box<[Ident]>,
     value: Value,
     flags: AssignmentFlag,
+    /// `[a, b] = v` stores elements of the value; with a single name (`[a] = v`) only this tells it from `a = v`
+    unpacks: bool,
 }
 
 impl WalkForType for Assignment {
@@ -71,6 +73,7 @@ impl Assignment {
             idents: Box::new([ident]),
             value,
             flags: AssignmentFlag(0),
+            unpacks: false,
         }
     }
 
@@ -79,6 +82,7 @@ impl Assignment {
             idents,
             value,
             flags: AssignmentFlag(0),
+            unpacks: true,
         }
     }
 
@@ -180,7 +184,7 @@ impl Compile for Assignment {
     fn compile(&self, state: &CompilationState) -> Result<Vec<super::CompiledItem>> {
         let mut value_init = self.value().compile(state)?;
 
-        if self.idents.len() == 1 {
+        if !self.unpacks {
             let name = self.idents[0].name();
             let store_instruction = if self.flags().contains(AssignmentFlag::modify()) {
                 instruction!(store_object name)
